@@ -909,3 +909,78 @@ def well_typed(op: Any) -> str | None:
     if 'operator' in d and isop(op.operator):
         return well_typed(op.operator)
     return None
+
+
+# ---- one operator of a requested class (so that every class is reached early in every shard) -----------
+
+CLASS_RECIPES = [
+    'AdditionOperator', 'CompositionOperator', 'TransposeOperator', 'IdentityOperator', 'HomothetyOperator',
+    'BroadcastDiagonalOperator', 'DiagonalOperator', 'DiagonalInverseOperator', 'DenseBlockDiagonalOperator',
+    'IndexOperator', 'PackOperator', 'MoveAxisOperator', 'RavelOperator', 'ReshapeOperator',
+    'ReshapeTransposeOperator', 'BlockRowOperator', 'BlockDiagonalOperator', 'BlockColumnOperator',
+    'SymmetricBandToeplitzOperator', 'QURotationOperator', 'QURotationTransposeOperator', 'HWPOperator',
+    'LinearPolarizerOperator', 'ToastObservationMatrixOperator', 'ToastObservationMatrixTransposeOperator',
+]
+
+
+def operator_of_class(rng: Any, name: str) -> Any:
+    """A small operator whose top-level class is ``name`` (None if the recipe does not apply)."""
+    begin_case(rng)
+    u = universe(rng)
+    leaf = u[pick(rng, ['v3', 'v4', 'm23', 'm22'])]
+    stokes = u[pick(rng, [k for k in u if k.startswith('stokes')])]
+    cont = u[pick(rng, ['list_eq', 'dict_unsorted', 'tuple_samefirst'])]
+    if name == 'AdditionOperator':
+        a = atom(rng, leaf, only=('diagonal', 'toeplitz', 'homothety'))
+        return a + atom(rng, leaf, only=('diagonal', 'homothety'))
+    if name == 'CompositionOperator':
+        return chain(rng, leaf, 2, Budget(1, 2, False), 1)
+    if name == 'TransposeOperator':
+        return a_index(rng, leaf).T if rng.integers(2) else a_polarizer(rng, stokes).T
+    if name == 'IdentityOperator':
+        return a_identity(rng, pick(rng, [leaf, stokes, cont]))
+    if name == 'HomothetyOperator':
+        return a_homothety(rng, pick(rng, [leaf, stokes, cont]))
+    if name == 'BroadcastDiagonalOperator':
+        return a_broadcast_diagonal(rng, u['v3']) or a_broadcast_diagonal(rng, u['m23'])
+    if name == 'DiagonalOperator':
+        return a_diagonal(rng, pick(rng, [leaf, u['list_eq']]))
+    if name == 'DiagonalInverseOperator':
+        return a_diagonal(rng, leaf).I
+    if name == 'DenseBlockDiagonalOperator':
+        return a_dense(rng, pick(rng, [leaf, u['list_eq']]))
+    if name == 'IndexOperator':
+        return a_index(rng, pick(rng, [leaf, u['list_eq']]))
+    if name == 'PackOperator':
+        return a_pack(rng, pick(rng, [leaf, stokes]))
+    if name == 'MoveAxisOperator':
+        return a_moveaxis(rng, u[pick(rng, ['m23', 't213', 't223'])])
+    if name == 'RavelOperator':
+        return a_ravel(rng, u[pick(rng, ['m23', 't213', 'tuple_mixrank'])])
+    if name == 'ReshapeOperator':
+        return a_reshape(rng, u[pick(rng, ['m23', 'v4', 'list_eq'])])
+    if name == 'ReshapeTransposeOperator':
+        return (a_reshape(rng, u['m23']) if rng.integers(2) else a_ravel(rng, u['m23'])).T
+    if name in ('BlockRowOperator', 'BlockDiagonalOperator', 'BlockColumnOperator'):
+        kind = {'BlockRowOperator': 'blockrow', 'BlockDiagonalOperator': 'blockdiag', 'BlockColumnOperator': 'blockcol'}[name]
+        for _ in range(6):
+            e = _expr_kind(rng, kind, cont if kind != 'blockcol' else leaf, Budget(1, 2, False), 0)
+            if e is not None and size_of(e.out_structure()) <= MAX_SIZE:
+                return e
+        return None
+    if name == 'SymmetricBandToeplitzOperator':
+        return a_toeplitz(rng, u[pick(rng, ['v4', 'm23'])])
+    if name == 'QURotationOperator':
+        return a_qurot(rng, stokes)
+    if name == 'QURotationTransposeOperator':
+        return a_qurot(rng, stokes).T
+    if name == 'HWPOperator':
+        return a_hwp(rng, stokes)
+    if name == 'LinearPolarizerOperator':
+        return a_polarizer(rng, stokes)
+    if name == 'ToastObservationMatrixOperator':
+        return a_toast(rng, u[pick(rng, ['v3', 'v4'])])
+    if name == 'ToastObservationMatrixTransposeOperator':
+        t = a_toast(rng, u[pick(rng, ['v3', 'v4'])])
+        return t.T if t is not None else None
+    return None
